@@ -1,5 +1,5 @@
 """C14 helpers: subset ASTs of structural Verilog, a layout-randomising renderer, the well-formedness guard
-(Python twin of `wf` in Model/FastVerilog.v) and a Python twin of the comparison oracle (used only for the
+(Python twin of `in_subset` in Model/FastVerilog.v) and a Python twin of the comparison oracle (used only for the
 bundled netlists that are too large for vm_compute; everything else is judged in Coq).
 
 AST (JSON):  {"name": str, "ports": [str], "items": [item], "bbdefs": [[name, [ins], [outs]]]}
@@ -17,9 +17,9 @@ C1 = ["1'b1"]
 
 STRESS_NAMES = ["xinput", "outputy", "wire_a", "input_x", "inputx", "an_output", "xoutput", "assignx", "myassign", "xwire", "modulex",
                 "tie0", "tie1", "tie_0", "tie_1", "tie_x", "tie_0_0", "tie0_1", "tie_1_0", "tie", "and_a_b", "not_a", "buf_1", "xor2",
-                "N1", "G12gat", "a_", "b0", "b1", "h0", "Z", "n__3", "x1_y2"]
+                "N1", "G12gat", "a_", "b0", "b1", "h0", "Z", "n__3", "x1_y2", "_00_", "_n1", "_", "__x", "tie0_0", "tie1_0", "tie_x_0"]
 PLAIN = ["a", "b", "c", "d", "e", "f", "g", "h", "i0", "i1", "n1", "n2", "n3", "w_1", "w_2", "o1", "o2", "q", "r", "s", "t", "u", "v", "y", "z"]
-INSTS = ["g1", "g2", "U3", "u_4", "NAND2_0", "g_5", "i6", "xinput7", "inst8", "output9x", "g10", "g11", "g12", "g13", "g14", "g15", "g16"]
+INSTS = ["g1", "g2", "U3", "u_4", "NAND2_0", "g_5", "i6", "xinput7", "inst8", "output9x", "_g10_", "_11", "g11", "g12", "g13", "g14", "g15", "g16"]
 BBLIB = [["ff", ["clk", "d"], ["q"]], ["dff", ["CK", "D"], ["Q", "QN"]], ["sram", ["a0", "a1", "we"], ["dout"]], ["lat", ["d"], ["q"]],
          ["src", [], ["o"]], ["snk", ["i"], []]]
 
@@ -29,7 +29,7 @@ def is_const(s):
 
 
 # ---------------------------------------------------------------- generator
-def gen_ast(rng, size="small", stress=0.35, p_const=0.15, p_bb=0.5, p_assign=0.5, weird=0.0):
+def gen_ast(rng, size="small", stress=0.35, p_const=0.15, p_bb=0.5, p_assign=0.5, pardup=0.0):
     """A random AST inside the documented subset (well-formed by construction unless weird > 0)."""
     pool = list(PLAIN)
     rng.shuffle(pool)
@@ -82,6 +82,8 @@ def gen_ast(rng, size="small", stress=0.35, p_const=0.15, p_bb=0.5, p_assign=0.5
                 elif k < 0.9:
                     conns.append([p, None])
             rng.shuffle(conns)
+            if not conns:                       # `bb inst ();` is not in the grammar of the full parser: keep one pin, unconnected
+                conns = [[(bb[1] + bb[2])[0], None]]
             items.append(["inst", bb[0], insts.pop(), conns])
             avail += new
             driven += new
@@ -93,13 +95,11 @@ def gen_ast(rng, size="small", stress=0.35, p_const=0.15, p_bb=0.5, p_assign=0.5
             t = rng.choice(PRIMS)
             ar = 1 if t in ("buf", "not") else rng.choice([1, 2, 2, 2, 3, 3, 4])
             ops = [operand() for _ in range(ar)]
-            if t in ("xor", "xnor") or rng.random() < 0.7:
-                # distinct net operands (equal operands of a parity gate are a separate, rare stream)
-                seen, o2 = set(), []
-                for o in ops:
-                    if is_const(o) or o not in seen:
-                        o2.append(o); seen.add(o)
-                ops = o2
+            if rng.random() < (1 - pardup if t in ("xor", "xnor") else 0.7):
+                # distinct operands (equal operands, nets or constants, are the rarer stream)
+                ops = list(dict.fromkeys(ops))
+            elif t not in ("buf", "not"):
+                ops.insert(rng.randrange(len(ops) + 1), rng.choice(ops))
             n = next(fresh)
             items.append(["gate", t, insts.pop(), [n] + ops])
             avail.append(n); driven.append(n)
@@ -138,7 +138,7 @@ def gen_ast(rng, size="small", stress=0.35, p_const=0.15, p_bb=0.5, p_assign=0.5
     return {"name": name, "ports": ports, "items": body, "bbdefs": bbdefs}
 
 
-# ---------------------------------------------------------------- well-formedness guard (twin of `wf` in FastVerilog.v)
+# ---------------------------------------------------------------- well-formedness guard (twin of `in_subset` in FastVerilog.v)
 IDENT = re.compile(r"^[A-Za-z_][A-Za-z0-9_]*$")
 IDENT_L = re.compile(r"^[A-Za-z][A-Za-z0-9_]*$")
 
@@ -183,6 +183,8 @@ def wf(ast):
             b = bbs[it[1]]
             insts.append(it[2])
             pins = [p for p, _ in it[3]]
+            if not pins:
+                return "empty connection list"
             if len(set(pins)) != len(pins):
                 return "pin twice"
             for p, n in it[3]:
@@ -269,3 +271,130 @@ def untie(d):
 def py_same(df, dl):
     """fast dump vs full dump: identical apart from the names of the constant nodes"""
     return untie(df) == untie(dl)
+
+
+# ---------------------------------------------------------------- subset reader for given texts (bundled netlists, corpus)
+TOK = re.compile(r"\s+|([A-Za-z_][A-Za-z0-9_]*|1'[bhd][01x]|[(),;.=])|(.)", re.S)
+
+
+def strip_comments(text):
+    return re.sub(r"//[^\n]*\n|/\*.*?\*/", "\n", text, flags=re.S)
+
+
+def parse_subset(text, bbdefs=None):
+    """Text -> (AST, None) when the text is one module of the subset grammar, else (None, reason).  Blackbox definitions that
+    are not given are inferred from the pins (Q/QN/q/qn/o/out/dout are outputs)."""
+    toks = []
+    for m in TOK.finditer(text):
+        if m.group(2):
+            return None, f"character {m.group(2)!r} outside the subset"
+        if m.group(1):
+            toks.append(m.group(1))
+    pos = 0
+
+    def peek():
+        return toks[pos] if pos < len(toks) else None
+
+    def eat(t=None):
+        nonlocal pos
+        if pos >= len(toks) or (t is not None and toks[pos] != t):
+            raise SyntaxError(f"expected {t!r} at token {pos}: {toks[pos:pos + 4]}")
+        pos += 1
+        return toks[pos - 1]
+
+    def ident():
+        t = eat()
+        if not IDENT.match(t):
+            raise SyntaxError(f"identifier expected, got {t!r}")
+        return t
+
+    def idlist(end):
+        out = [ident()]
+        while peek() == ",":
+            eat(",")
+            out.append(ident())
+        eat(end)
+        return out
+    known = {b[0]: b for b in (bbdefs or [])}
+    inferred = {}
+    try:
+        eat("module")
+        name = ident()
+        eat("(")
+        ports = idlist(")")
+        eat(";")
+        items = []
+        while peek() != "endmodule":
+            k = eat()
+            if k in ("input", "output", "wire"):
+                items.append([k, idlist(";")])
+            elif k == "assign":
+                l = ident(); eat("="); r = eat()
+                if not (IDENT.match(r) or "'" in r):
+                    raise SyntaxError("assign of an expression")
+                eat(";")
+                items.append(["assign", l, r])
+            elif IDENT.match(k):
+                inst = ident()
+                eat("(")
+                if peek() == ".":
+                    conns = []
+                    while True:
+                        eat("."); p = ident(); eat("(")
+                        n = None
+                        if peek() != ")":
+                            n = eat()
+                            if not (IDENT.match(n) or "'" in n):
+                                raise SyntaxError("expression on a pin")
+                        eat(")")
+                        conns.append([p, n])
+                        if peek() == ",":
+                            eat(","); continue
+                        break
+                    eat(")"); eat(";")
+                    if k in PRIMS:
+                        raise SyntaxError("primitive with named ports")
+                    items.append(["inst", k, inst, conns])
+                    if k not in known:
+                        d = inferred.setdefault(k, [k, [], []])
+                        for p, _ in conns:
+                            tgt = d[2] if p in ("Q", "QN", "q", "qn", "o", "out", "dout") else d[1]
+                            if p not in tgt:
+                                tgt.append(p)
+                else:
+                    ops = []
+                    while True:
+                        o = eat()
+                        if not (IDENT.match(o) or "'" in o):
+                            raise SyntaxError("expression as operand")
+                        ops.append(o)
+                        if peek() == ",":
+                            eat(","); continue
+                        break
+                    eat(")"); eat(";")
+                    if k not in PRIMS:
+                        raise SyntaxError("positional ports on a non-primitive")
+                    items.append(["gate", k, inst, ops])
+            else:
+                raise SyntaxError(f"unexpected token {k!r}")
+        eat("endmodule")
+        if pos != len(toks):
+            raise SyntaxError("text after endmodule")
+    except SyntaxError as e:
+        return None, str(e)
+    used = {it[1] for it in items if it[0] == "inst"}
+    bbs = [known[k] for k in known if k in used] + [[k, sorted(v[1]), sorted(v[2])] for k, v in inferred.items()]
+    return {"name": name, "ports": ports, "items": items, "bbdefs": bbs}, None
+
+
+def count_nodes(ast):
+    n = 0
+    for it in ast["items"]:
+        if it[0] == "input":
+            n += len(it[1])
+        elif it[0] in ("gate", "assign"):
+            n += 1
+        elif it[0] == "inst":
+            b = next(b for b in ast["bbdefs"] if b[0] == it[1])
+            n += len(b[1]) + len(b[2]) + len(it[3])
+    return n
